@@ -222,17 +222,31 @@ def program_candidates(prog: dict):
             yield 'subtree -> leaf', p
 
 
-def shrink_workload(prop, scn, want, deadline, stats, tries: int = 30):
-    """Greedy: accept any smaller scenario for which some fresh schedule
-    (up to `tries` seeds) shows the same signature."""
+def shrink_workload(prop, scn, want, deadline, stats, tries: int = 12,
+                    decisions=None):
+    """Greedy: accept any smaller scenario that still shows the same
+    signature -- first under the recorded decisions replayed leniently (the
+    schedule keeps its shape although the workload changed), then under up
+    to `tries` fresh schedules."""
     cur = scn
     cur_res = None
+    cur_dec = decisions
     improved = True
     while improved and time.time() < deadline:
         improved = False
         for desc, cand in workload_candidates(cur):
             if time.time() >= deadline:
                 break
+            if cur_dec is not None:
+                stats['attempts'] += 1
+                hit, res = _attempt(prop, copy.deepcopy(cand),
+                                    [tuple(d) for d in cur_dec], True, want)
+                if hit:
+                    cur, cur_res = copy.deepcopy(cand), res
+                    cur_dec = res['decisions']
+                    stats['accepted'].append(desc + ' (same schedule)')
+                    improved = True
+                    break
             for k in range(tries):
                 if time.time() >= deadline:
                     break
@@ -243,6 +257,7 @@ def shrink_workload(prop, scn, want, deadline, stats, tries: int = 30):
                 hit, res = _attempt(prop, c, None, False, want)
                 if hit:
                     cur, cur_res = c, res
+                    cur_dec = res['decisions']
                     stats['accepted'].append(desc)
                     improved = True
                     break
@@ -257,8 +272,9 @@ def minimise(prop: str, res: dict, v: dict, budget_s: float = 60.0):
     stats = {'attempts': 0, 'accepted': []}
     scn = res['scenario']
     decisions = res['decisions']
-    # workload first (gets 60% of the budget), then schedule
-    scn2, r2 = shrink_workload(prop, scn, want, t0 + 0.6 * budget_s, stats)
+    # workload first (gets 35% of the budget), then schedule
+    scn2, r2 = shrink_workload(prop, scn, want, t0 + 0.35 * budget_s, stats,
+                               decisions=decisions)
     if r2 is not None:
         scn, decisions = scn2, r2['decisions']
     dec2, r3 = shrink_schedule(prop, scn, decisions, want,
